@@ -96,6 +96,7 @@ type cTx struct {
 	lb           []time.Time // lb[k]: lower bound of the clock reading taken for transmission k
 	writeFailed  bool
 	kc           bool // known-finding family K-c: a timeout callback for this id overlapped the processing of a datagram with this id or this transaction's own Start call
+	kcB          bool // a timeout event for this id began before the transaction's own Start call had completed its first write
 	firstWriteOK bool
 	cbBegun      int
 	reuseOf      int
@@ -204,6 +205,9 @@ type clientEngine struct {
 	phase         int
 	callers       []*verifrt.Task
 	healRounds    int
+	marathon      bool
+	reentPct      int
+	reentered     int
 	healClock     int
 	idleRounds    int
 	lastProgress  int
@@ -372,6 +376,7 @@ func (a *wrapAgent) SetHandler(h stun.Handler) error {
 				if e.inStartWindow(tx) {
 					// the transaction's own Start call has not finished its write / rollback yet
 					tx.kc = true
+					tx.kcB = true
 					e.kcSeen = true
 					e.stats["probe_timeout_during_start_call"]++
 				}
@@ -499,6 +504,9 @@ func (c *simConn) Write(b []byte) (int, error) {
 		copy(id[:], data[8:20])
 		tx = e.byID[id]
 	}
+	if w.trigger != nil && (tx == nil || w.trigger.id != tx.id) {
+		w.trigger = nil // a write made inside some other transaction's callback (re-entrant handler)
+	}
 	e.r.Logf("write: len=%d by task %d tx=%v", len(b), w.task, txName(tx))
 	e.onWriteBegin(tx, &w, data)
 	verifrt.Yield(hsWrite)
@@ -571,6 +579,9 @@ func (e *clientEngine) serve(req []byte) {
 		return
 	}
 	n := r.Pick([]int{3, 5, 1}, "server-responses") // 0, 1 or 2 responses
+	if e.marathon {
+		n = 1 + r.Pick([]int{20, 1}, "server-responses-m")
+	}
 	for i := 0; i < n; i++ {
 		pad := 0
 		switch r.Choose(4, "resp-size") {
@@ -725,7 +736,15 @@ func (e *clientEngine) onWriteBegin(tx *cTx, w *cWrite, data []byte) {
 		e.fail(tx, "C11", "indication-rewritten", "%s was written %d times", tx.name(), k+1)
 	}
 	now := w.when
-	if k == 0 {
+	if tx.kcB {
+		// the agent timed the transaction out before Start's own (first) write:
+		// "transmission k" is not defined by the property for such a schedule
+		e.stats["probe_c11_schedule_unchecked_timeout_before_first_write"]++
+		tx.lb = append(tx.lb, now)
+	} else if k == 0 {
+		// the RTO was captured by Start before this first write: every SetRTO
+		// value that may have been in force between invoke and now is admissible
+		e.setRTOBounds(tx, w.seq)
 		lb := tx.invokeAt
 		if e.manual && !w.lastNow.IsZero() && tx.kind != txIndicate {
 			lb = w.lastNow
@@ -908,6 +927,14 @@ func (e *clientEngine) txHandler(tx *cTx) stun.Handler {
 		if tx.kind == txDo {
 			tx.doCbDone = true
 		}
+		// re-entrancy: a handler may start a new transaction (e.g. a retry)
+		if e.reentPct > 0 && e.reentered < 6 && e.viol == nil && e.r.Pct(e.reentPct, "handler-reenters") {
+			e.reentered++
+			e.stats["probe_handler_reentered_client"]++
+			if tk := e.r.Sim.Cur(); tk != nil {
+				e.startTx(tk, txStart, nil)
+			}
+		}
 		verifrt.Yield(hsHandler)
 	}
 }
@@ -928,6 +955,9 @@ func (e *clientEngine) checkOutcome(tx *cTx, c *cCall) {
 		e.fail(tx, "C10", "outcome-message-with-error", "handler of %s received a message together with error %v", tx.name(), c.err)
 	case errors.Is(c.err, stun.ErrTransactionTimeOut):
 		e.stats["outcome_timeout"]++
+		if tx.kcB {
+			return
+		}
 		// timeout only after the (n+1)-th deadline: all n+1 transmissions were made ...
 		if len(tx.writes) < tx.limit+1 {
 			e.fail(tx, "C11", "timeout-before-last-retransmission", "%s timed out after %d transmissions; the limit in force gives %d", tx.name(), len(tx.writes), tx.limit+1)
@@ -1015,6 +1045,19 @@ func (e *clientEngine) admissibleRTO(invoke, ret int) []time.Duration {
 		}
 	}
 	return out
+}
+
+func (e *clientEngine) setRTOBounds(tx *cTx, upto int) {
+	rs := e.admissibleRTO(tx.invoke, upto)
+	tx.rtoSet = rs
+	if len(rs) > 0 {
+		tx.rtoMin = rs[0]
+		for _, v := range rs {
+			if v < tx.rtoMin {
+				tx.rtoMin = v
+			}
+		}
+	}
 }
 
 func (e *clientEngine) buildMsg(id [stun.TransactionIDSize]byte, size int, class stun.MessageClass) *stun.Message {
@@ -1110,15 +1153,8 @@ func (e *clientEngine) startTx(tk *verifrt.Task, kind cTxKind, reuse *cTx) {
 	tx.ret = err
 	tx.returned = true
 	tx.retSeq = r.Seq()
-	rs := e.admissibleRTO(tx.invoke, tx.retSeq)
-	tx.rtoSet = rs
-	if len(rs) > 0 {
-		tx.rtoMin = rs[0]
-		for _, v := range rs {
-			if v < tx.rtoMin {
-				tx.rtoMin = v
-			}
-		}
+	if len(tx.rtoSet) == 0 {
+		e.setRTOBounds(tx, tx.retSeq)
 	}
 	r.Logf("return %s -> %v", tx.name(), err)
 	// C10: if the call returns an error the handler is never invoked
@@ -1326,11 +1362,29 @@ func (e *clientEngine) Setup(r *Run) {
 	case "C15":
 		e.closePct = 1 + r.Choose(4, "closepct15")
 	case "C12":
-		if thorough && r.Pct(30, "many") {
-			e.nCallers = 8 + r.Choose(9, "ncallers12")
+		if r.Pct(30, "many") {
+			// many transactions in flight at once
+			e.nCallers = 4 + r.Choose(5, "ncallers12")
 			e.opsPer = 4 + r.Choose(6, "opsper12")
+			if thorough {
+				e.nCallers = 8 + r.Choose(9, "ncallers12t")
+				e.opsPer = 8 + r.Choose(24, "opsper12t")
+			}
+			e.chaosCap = 30000
+		} else if r.Pct(15, "marathon") {
+			// long sequential reuse of the pooled transaction / wait-handler objects
+			e.marathon = true
+			e.nCallers = 1 + r.Choose(2, "ncallers-m")
+			e.opsPer = 100 + r.Choose(200, "opsper-m")
+			if thorough {
+				e.opsPer = 500 + r.Choose(1500, "opsper-mt")
+			}
+			e.lossPct, e.writeFailPct, e.readFailPct, e.closePct = 0, 0, 0, 0
+			e.bigPct = 0
+			e.chaosCap = 150000
 		}
 	}
+	e.reentPct = []int{0, 0, 0, 30}[r.Choose(4, "reenter")]
 	r.Sim.YieldInLock = r.Pct(25, "inlock")
 	r.Sim.RaceCheck = true
 	r.Sim.PoolMode = r.Choose(2, "poolmode")
@@ -1339,6 +1393,9 @@ func (e *clientEngine) Setup(r *Run) {
 	r.EnvWeight = 1
 	// per-run subset of honoured yield sites
 	dens := []int{100, 100, 50, 20}[r.Choose(4, "yield-density")]
+	if e.marathon {
+		dens = []int{10, 4}[r.Choose(2, "yield-density-m")]
+	}
 	if dens < 100 {
 		off := make([]bool, len(verifrt.SiteNames))
 		x := uint64(r.Choose(1<<30, "site-mask-seed"))*2654435761 + 12345
@@ -1352,7 +1409,7 @@ func (e *clientEngine) Setup(r *Run) {
 	}
 	e.cfgDesc = map[string]any{"manual_clock": e.manual, "no_conn_close": e.noConnClose, "no_retransmit": e.noRetransmit, "fallback": e.hasFallback,
 		"rto": e.rto0.String(), "rate": e.rate.String(), "callers": e.nCallers, "ops_per_caller": e.opsPer, "loss": e.lossPct, "dup": e.dupPct, "corrupt": e.corruptPct,
-		"write_fail": e.writeFailPct, "yield_density": dens, "in_lock_yields": r.Sim.YieldInLock, "pool_mode": r.Sim.PoolMode, "avoid_known": e.avoidKnown}
+		"write_fail": e.writeFailPct, "yield_density": dens, "in_lock_yields": r.Sim.YieldInLock, "pool_mode": r.Sim.PoolMode, "avoid_known": e.avoidKnown, "marathon": e.marathon, "handler_reenters_pct": e.reentPct}
 
 	e.conn = &simConn{e: e}
 	r.Sim.Spawn("setup", func() {
@@ -1540,26 +1597,6 @@ func (e *clientEngine) Env() []EnvEvent {
 			if d < 0 {
 				d = 0
 			}
-			if e.avoidKnown {
-				// known finding K-c: do not let a deadline of a transaction pass while its own Start call is still running
-				var rmin time.Duration = -1
-				for _, s := range e.setrtos {
-					if rmin < 0 || s.v < rmin {
-						rmin = s.v
-					}
-				}
-				for _, t := range e.txs {
-					if e.inStartWindow(t) {
-						if lim := t.invokeAt.Add(rmin).Sub(e.vnow()); d > lim {
-							d = lim
-							e.stats["avoid_clock_capped"]++
-						}
-					}
-				}
-				if d < 0 {
-					d = 0
-				}
-			}
 			if !e.manual && d == 0 {
 				return
 			}
@@ -1729,10 +1766,17 @@ func (e *clientEngine) MatchKnown(sig string, v *Violation) bool {
 		if !e.kcSeen {
 			return false
 		}
+		explained := map[string]bool{
+			"inflight-to-fallback": true, "response-not-delivered": true, "wrong-transaction": true, // the response meets an unregistered / recycled transaction
+			"handler-after-start-error": true, "start-error-after-handler": true, // the callback completes a transaction that Start rolled back
+		}
 		if e.violTx != nil && e.viol == v {
-			return e.violTx.kc
+			return e.violTx.kc && explained[v.Class]
 		}
 		if e.viol == v && e.violDatagram != nil && e.violDatagram.decodes {
+			if !explained[v.Class] {
+				return false
+			}
 			if e.violDatagram.overlapCB {
 				return true
 			}
